@@ -88,6 +88,433 @@ def make_insert_contract(oid):
                       max_paths=5000)
 
 
+def summary_insert_pole(old, north):
+    """functional summary of _insert_pt_in_latlonbox for a pole point (lat = +-pi/2, lon = FILL): only the latitude bound on the pole's
+    side moves to the pole - proven equal to the real function by C13.insert.pole"""
+    a, b, lo, hi = old
+    return (a, sc.lift(PI / 2), lo, hi) if north else (sc.lift(-PI / 2), b, lo, hi)
+
+
+def make_insert_pole(oid):
+    def setup(ctx):
+        a, b = ctx.real("lat_lo", -1.5, 1.5), ctx.real("lat_hi", -1.5, 1.5)
+        lo, hi = ctx.real("lon_lo", 0, 2 * PI - 1e-3), ctx.real("lon_hi", 0, 2 * PI - 1e-3)
+        ctx.assume(sc.z(a) <= sc.z(b))
+        north = ctx.bool("north")
+        return a, b, lo, hi, north
+
+    def run(ctx, inp):
+        a, b, lo, hi, north = inp
+        g = world().G["uxarray.grid.geometry"]
+        nb = bool(north)
+        pt = symnp.array([PI / 2 if nb else -PI / 2, float(F)])
+        old = symnp.SArr.new([a, b, lo, hi], (2, 2), None, symnp.float64)
+        keep = old.flat_list()
+        new = g["_insert_pt_in_latlonbox"](old, pt)
+        got = [sc.z(new[0][0]), sc.z(new[0][1]), sc.z(new[1][0]), sc.z(new[1][1])]
+        exp = summary_insert_pole(tuple(sc.z(x) for x in (a, b, lo, hi)), nb)
+        ctx.prove("inserting a pole point moves only the latitude bound on that pole's side to the pole", z3.And(*[x == y for x, y in zip(got, exp)]))
+        ctx.prove("the input box is not modified", z3.And(*[sc.z(x) == sc.z(y) for x, y in zip(old.flat_list(), keep)]))
+        # the two partially empty states the pole branch of the face loop can produce
+        e1 = g["_insert_pt_in_latlonbox"](symnp.full((2, 2), F, dtype=symnp.float64), pt)
+        pv = PI / 2 if nb else -PI / 2
+        ctx.prove("a pole point inserted into the empty box starts the latitude range at the pole and leaves the longitude range empty",
+                  [float(x) if not isinstance(x, sc.Sym) else None for x in e1.flat_list()] == [pv, pv, float(F), float(F)], note=str(e1.flat_list()))
+        lat, lon = ctx.real("pt_lat", -1.5, 1.5), ctx.real("pt_lon", 0, 2 * PI - 1e-3)
+        half = symnp.SArr.new([a, b, float(F), float(F)], (2, 2), None, symnp.float64)
+        e2 = g["_insert_pt_in_latlonbox"](half, symnp.SArr.new([lat, lon], (2,), None, symnp.float64))
+        ctx.prove("an ordinary point inserted into a box with an empty longitude range: latitude hull, longitude range = the point",
+                  z3.And(sc.z(e2[0][0]) == z3.If(sc.z(lat) < sc.z(a), sc.z(lat), sc.z(a)), sc.z(e2[0][1]) == z3.If(sc.z(lat) > sc.z(b), sc.z(lat), sc.z(b)),
+                         sc.z(e2[1][0]) == sc.z(lon), sc.z(e2[1][1]) == sc.z(lon)))
+
+    def replay(v):
+        from uxarray.grid.geometry import _insert_pt_in_latlonbox
+        nb = bool(v["north"])
+        old = np.array([[v["lat_lo"], v["lat_hi"]], [v["lon_lo"], v["lon_hi"]]], dtype=float)
+        new = np.asarray(_insert_pt_in_latlonbox(old.copy(), np.array([PI / 2 if nb else -PI / 2, float(F)])))
+        exp = old.copy()
+        if nb:
+            exp[0, 1] = PI / 2
+        else:
+            exp[0, 0] = -PI / 2
+        if not np.allclose(new, exp, atol=1e-12):
+            return f"_insert_pt_in_latlonbox({old.tolist()}, {'north' if nb else 'south'} pole point) = {new.tolist()}, expected {exp.tolist()}"
+        return None
+
+    return Obligation(oid, "_insert_pt_in_latlonbox with a pole point equals its functional summary", setup, run, replay, exact=True,
+                      functions=["geometry._insert_pt_in_latlonbox"], bounds="every box (lat_lo <= lat_hi, lon bounds in [0,2pi)), north and south pole point")
+
+
+def make_unique_points(oid, k=3):
+    """geometry._unique_points (used to count distinct crossings in the pole-inside-polygon test): greedy de-duplication against ALL kept points"""
+    def setup(ctx):
+        P = [[z3.Real(f"q{i}_{c}") for c in "xyz"] for i in range(k)]
+        for r in P:
+            for x in r:
+                ctx.solver.add(x >= -1, x <= 1)
+        ctx.eng.declare("P", P)
+        return P
+
+    def run(ctx, P):
+        sc.NL_UF[0] = True
+        old_sqrt, symnp.SQRT_MODE[0] = symnp.SQRT_MODE[0], "uf"
+        try:
+            g = world().G["uxarray.grid.geometry"]
+            tol = 1e-6
+            A = lambda r: symnp.SArr.new([mk(x) for x in r], (3,), None, symnp.float64)      # noqa: E731
+
+            def radius(p1, p2):     # the kernel's own distance term, rebuilt with the same operations
+                num = symnp.sqrt((p1[0] - p2[0]) ** 2 + (p1[1] - p2[1]) ** 2 + (p1[2] - p2[2]) ** 2)
+                den = symnp.sqrt(p2[0] ** 2 + p2[1] ** 2 + p2[2] ** 2)
+                return sc.z(num / den)
+            arrs = [A(r) for r in P]
+            near = {(i, j): radius(arrs[i], arrs[j]) < sc.lift(tol) for i in range(k) for j in range(i)}
+            out = g["_unique_points"]([A(r) for r in P], tolerance=tol)
+            kept_terms = [[sc.z(x) for x in o.flat_list()] for o in out]
+            same = lambda a, b: z3.And(*[x == y for x, y in zip(a, b)])      # noqa: E731
+            # spec: point i is kept iff it is not near any earlier kept point
+            kept = []
+            for i in range(k):
+                kept.append(z3.Not(z3.Or(*[z3.And(kept[j], near[(i, j)]) for j in range(i)])) if i else z3.BoolVal(True))
+            ctx.prove("as many points are kept as the greedy rule 'keep a point unless it is within tolerance of ANY kept point' keeps",
+                      z3.Sum([z3.If(c, 1, 0) for c in kept]) == len(out))
+            for r, t in enumerate(kept_terms):
+                ctx.prove(f"kept point {r} is the {r}-th point the rule keeps",
+                          z3.Or(*[z3.And(kept[i], z3.Sum([z3.If(kept[j], 1, 0) for j in range(i)]) == r, same(t, P[i])) for i in range(k)]))
+        finally:
+            sc.NL_UF[0] = False
+            symnp.SQRT_MODE[0] = old_sqrt
+
+    def replay(v):
+        from uxarray.grid.geometry import _unique_points
+        a, b = np.array([1.0, 0.0, 0.0]), np.array([0.0, 0.6, 0.8])
+        for pts, want in (([a, b, a + 1e-9], 2), ([a, a, b, b], 2), ([a, b, a, b, a], 2), ([a, b, np.array([0.0, 0.0, 1.0])], 3)):
+            got = _unique_points([p.copy() for p in pts], tolerance=1e-6)
+            if len(got) != want:
+                return f"_unique_points({[p.tolist() for p in pts]}) kept {len(got)} points, {want} are distinct"
+        return None
+
+    return Obligation(oid, "_unique_points keeps exactly the points not within tolerance of an earlier kept point", setup, run, replay, exact=False,
+                      functions=["geometry._unique_points"], bounds=f"{k} points with symbolic coordinates; distances abstract",
+                      stubs=["products / sqrt / quotients uninterpreted (the distance is an abstract term)"], max_paths=2000)
+
+
+def _check_real_pole_face(lon_deg, lat_deg, north):
+    """real Grid.bounds of a face whose interior contains a pole (corners listed counter-clockwise seen from above the north pole)"""
+    import uxarray as ux
+    import warnings
+    n = len(lon_deg)
+    g = ux.Grid.from_topology(np.array(lon_deg, dtype=float), np.array(lat_deg, dtype=float), np.array([list(range(n))], dtype=np.intp), fill_value=F)
+    with warnings.catch_warnings():
+        warnings.simplefilter("ignore")
+        b = np.asarray(g.bounds.values)[0]
+    lon, lat = [math.radians(x) for x in lon_deg], [math.radians(x) for x in lat_deg]
+    xyz = [np.array([math.cos(la) * math.cos(lo), math.cos(la) * math.sin(lo), math.sin(la)]) for lo, la in zip(lon, lat)]
+    lats = []
+    for i in range(n):
+        a, c = xyz[i], xyz[(i + 1) % n]
+        om = math.acos(max(-1, min(1, float(np.dot(a, c)))))
+        ts = np.linspace(0, 1, 2001)
+        P = (np.sin((1 - ts) * om)[:, None] * a + np.sin(ts * om)[:, None] * c) / math.sin(om)
+        lats += list(np.arcsin(np.clip(P[:, 2], -1, 1)))
+    lats = np.array(lats)
+    want_lat = [lats.min(), PI / 2] if north else [-PI / 2, lats.max()]
+    if abs(b[0][0] - want_lat[0]) > 1e-5 or abs(b[0][1] - want_lat[1]) > 1e-5:
+        return f"pole-enclosing face with corners (lon,lat) deg {list(zip(lon_deg, lat_deg))}: Grid.bounds latitude {b[0].tolist()} rad, the face spans {want_lat}"
+    if abs(b[1][0]) > 1e-9 or abs(b[1][1] - 2 * PI) > 1e-9:
+        return f"pole-enclosing face with corners (lon,lat) deg {list(zip(lon_deg, lat_deg))}: Grid.bounds longitude {b[1].tolist()} rad instead of the full circle"
+    return None
+
+
+def make_box_pole(oid, n, north, tiers=("quick", "thorough"), cost=3):
+    """the pole branch of _populate_face_latlon_bound: the face contains the pole (stub of _pole_point_inside_polygon), edges are abstract
+    arcs, each edge may or may not pass through the pole (abstract answer of point_within_gca)"""
+    sgn = 1 if north else -1
+
+    def setup(ctx):
+        ctx.const("n", n); ctx.const("north", north)
+        lon = [z3.Real(f"lon_{i}") for i in range(n)]
+        lat = [z3.Real(f"lat_{i}") for i in range(n)]
+        ext = [z3.Real(f"ext_{i}") for i in range(n)]          # the arc's extreme latitude on the far side from the pole
+        thru = [ctx.bool(f"through_pole_{i}") for i in range(n)]
+        S = ctx.solver
+        sep = sc.lift(1e-4)
+        for i in range(n):
+            j = (i + 1) % n
+            S.add(lon[i] >= 0, lon[i] < sc.lift(2 * PI - 1e-3), lat[i] * sgn >= sc.lift(0.2), lat[i] * sgn <= sc.lift(1.5))
+            far = z3.If(lat[i] * sgn <= lat[j] * sgn, lat[i], lat[j])
+            S.add(z3.Or(ext[i] == far, ext[i] * sgn <= far * sgn - sep), ext[i] * sgn >= sc.lift(0.05))
+        for i in range(n):
+            for j in range(i + 1, n):
+                S.add(z3.Or(lat[i] == lat[j], lat[i] - lat[j] >= sep, lat[j] - lat[i] >= sep))
+                S.add(z3.Or(lon[i] - lon[j] >= sep, lon[j] - lon[i] >= sep))
+        for k_, v in (("lon", lon), ("lat", lat), ("ext", ext)):
+            ctx.eng.declare(k_, v)
+        return lon, lat, ext, thru
+
+    def run(ctx, inp):
+        lon, lat, ext, thru = inp
+        w = world()
+        g = w.G["uxarray.grid.geometry"]
+        cur = {"i": None}
+        saved = {k_: g[k_] for k_ in ("extreme_gca_latitude", "_pole_point_inside_polygon", "point_within_gca", "_insert_pt_in_latlonbox")}
+
+        def insert_summary(old_box, new_pt, is_lon_periodic=True):
+            fl = old_box.flat_list()
+            isF = lambda x: (not isinstance(x, sc.Sym)) and float(x) == float(F)      # noqa: E731
+            lat_empty, lon_empty = isF(fl[0]) and isF(fl[1]), isF(fl[2]) and isF(fl[3])
+            lon_v = new_pt[1]
+            if isF(lon_v):
+                # pole point: an empty latitude range starts at the pole; the longitude range is left as it is (C13.insert.pole)
+                a, b = (sc.lift(sgn * PI / 2), sc.lift(sgn * PI / 2)) if lat_empty else (sc.z(fl[0]), sc.z(fl[1]))
+                r = list(summary_insert_pole((a, b, None, None), north))[:2] + [fl[2], fl[3]]
+                return symnp.SArr.new([mk(x) if z3.is_expr(x) else x for x in r], (2, 2), None, symnp.float64)
+            if lat_empty and lon_empty:
+                r = summary_insert(None, (sc.z(new_pt[0]), sc.z(lon_v)))
+            elif lon_empty:
+                # latitude range already started by a pole point, longitude range still empty
+                lat_ = sc.z(new_pt[0])
+                a, b = sc.z(fl[0]), sc.z(fl[1])
+                r = (z3.If(lat_ < a, lat_, a), z3.If(lat_ > b, lat_, b), sc.z(lon_v), sc.z(lon_v))
+            else:
+                r = summary_insert(tuple(sc.z(x) for x in fl), (sc.z(new_pt[0]), sc.z(lon_v)))
+            return symnp.SArr.new([mk(x) for x in r], (2, 2), None, symnp.float64)
+        g["_insert_pt_in_latlonbox"] = insert_summary
+        # north pole inside: the kernel asks for the arc's minimum; the maximum is irrelevant there (and vice versa)
+        g["extreme_gca_latitude"] = lambda gca, kind: mk(ext[cur["i"]]) if kind == ("min" if north else "max") else mk(sc.lift(sgn * 1.55))
+        g["_pole_point_inside_polygon"] = lambda pole, edges: (pole == "North") == north
+        g["point_within_gca"] = lambda *a, **k_: thru[cur["i"]]
+        cart, ll = [], []
+        for i in range(n):
+            j = (i + 1) % n
+            cart += [1000.0 + i, 0.0, 0.0, 1000.0 + j, 0.0, 0.0]
+            ll += [mk(lon[i]), mk(lat[i]), mk(lon[j]), mk(lat[j])]
+        EC = symnp.SArr.new(cart, (n, 2, 3), None, symnp.float64)
+        EL = symnp.SArr.new(ll, (n, 2, 2), None, symnp.float64)
+        orig_get = symnp.SArr.__getitem__
+
+        def gi(self, key):
+            if self is EC and isinstance(key, int):
+                cur["i"] = key
+            return orig_get(self, key)
+        symnp.SArr.__getitem__ = gi
+        try:
+            box = g["_populate_face_latlon_bound"](EC, EL)
+        finally:
+            symnp.SArr.__getitem__ = orig_get
+            g.update(saved)
+        blo, bhi = sc.z(box[0][0]), sc.z(box[0][1])
+        llo, lhi = sc.z(box[1][0]), sc.z(box[1][1])
+        sl = sc.lift(SL)
+        pole_b, far_b = (bhi, blo) if north else (blo, bhi)
+        ctx.prove("the latitude bound on the pole's side is the pole", pole_b == sc.lift(sgn * PI / 2))
+        ctx.prove("the other latitude bound encloses every corner and every edge extreme",
+                  z3.And(*[z3.And(far_b * sgn <= lat[i] * sgn + sl, far_b * sgn <= ext[i] * sgn + sl) for i in range(n)]))
+        ctx.prove("and is attained by a corner or an edge extreme (tight)", z3.Or(*[z3.Or(_near(far_b, lat[i], sl), _near(far_b, ext[i], sl)) for i in range(n)]))
+        central = z3.And(*[z3.Not(sc.z(t)) for t in thru])
+        inside = lambda l: z3.If(llo <= lhi, z3.And(llo <= l + sl, l <= lhi + sl), z3.Or(l >= llo - sl, l <= lhi + sl))     # noqa: E731
+        ctx.prove("a pole strictly inside the face gives the full longitude circle; a pole on an edge gives an interval containing every corner longitude",
+                  z3.If(central, z3.And(llo == 0, lhi == sc.lift(2 * PI)), z3.And(*[inside(l) for l in lon])))
+        ctx.reachable("pole strictly inside", central)
+        ctx.reachable("an edge through the pole", z3.Not(central))
+
+    def replay(v):
+        # concretise: corners on a ring around the pole at the model's latitudes, longitudes spread over the full circle
+        lat0 = [abs(float(x)) for x in v["lat"]]
+        for shift in (0.0, 17.0, 181.0, 359.0 - 360.0 / n):
+            for scale in (1.0, 0.8):
+                lats = [sgn * min(88.0, max(20.0, math.degrees(x) * scale)) for x in lat0]
+                lons = [((shift + 360.0 * k_ / n + 7.0 * (k_ % 2) + 180) % 360) - 180 for k_ in range(n)]
+                if not north:
+                    lons = lons[::-1]; lats = lats[::-1]
+                r = _check_real_pole_face(lons, lats, north)
+                if r:
+                    return r
+        return None
+
+    return Obligation(oid, f"lat/lon bounds of a {n}-corner face containing the {'north' if north else 'south'} pole (abstract arcs)", setup, run, replay, exact=False, functions=FUNCS,
+                      bounds=f"{n} corners with |lat| in [0.2, 1.5] rad on the pole's hemisphere, abstract arc extremes, each edge may pass through the pole; no corner exactly at the pole; slack 1e-6",
+                      stubs=["_insert_pt_in_latlonbox -> functional summaries (C13.insert.contract, C13.insert.pole)", "extreme_gca_latitude -> abstract arc", "_pole_point_inside_polygon -> the pole is inside (its crossing count is C13.unique_points + C14.intersect)",
+                             "point_within_gca(pole, edge) -> symbolic boolean per edge"],
+                      tiers=tiers, cost=cost, max_paths=60000, timeout_s=2400)
+
+
+# ------------------------------------------------------------------ the pole-inside-polygon test
+def _same_terms(a, b):
+    return all(z3.simplify(sc.z(x)).eq(z3.simplify(sc.z(y))) for x, y in zip(a, b))
+
+
+def make_pole_split(oid, n=3):
+    """_pole_point_inside_polygon: which edges and which reference arc reach the crossing count (the count itself is C13.pole.count)"""
+    def setup(ctx):
+        V = [[z3.Real(f"v{k}_{c}") for c in "xyz"] for k in range(n)]
+        for r in V:
+            for x in r:
+                ctx.solver.add(x >= -1, x <= 1)
+            ctx.solver.add(z3.Or(r[2] == 0, r[2] >= sc.lift(1e-3), r[2] <= -sc.lift(1e-3)))
+        ctx.eng.declare("V", V)
+        north_q = ctx.bool("ask_north")
+        return V, north_q
+
+    def run(ctx, inp):
+        V, north_q = inp
+        g = world().G["uxarray.grid.geometry"]
+        calls = []
+        cnt = [ctx.eng.fresh("cnt", "Int") for _ in range(2)]
+        for c in cnt:
+            ctx.solver.add(c >= 0, c <= 4)
+
+        def stub(ref_edge, edges):
+            e = edges.raw() if hasattr(edges, "raw") else edges
+            rows = [[e[i, 0].flat_list(), e[i, 1].flat_list()] for i in range(e.shape_cap[0])]
+            calls.append(([float(x) for x in ref_edge.flat_list()], rows, edges.n if getattr(edges, "n", None) is not None else len(rows)))
+            return mk(cnt[len(calls) - 1])
+        saved = g["_check_intersection"]
+        g["_check_intersection"] = stub
+        try:
+            E = symnp.SArr.new([mk(x) for k in range(n) for x in (V[k] + V[(k + 1) % n])], (n, 2, 3), None, symnp.float64)
+            pole = "North" if bool(north_q) else "South"
+            res = g["_pole_point_inside_polygon"](pole, E)
+        finally:
+            g["_check_intersection"] = saved
+        zs = [r[2] for r in V]
+        all_n, all_s = z3.And(*[z_ > 0 for z_ in zs]), z3.And(*[z_ < 0 for z_ in zs])
+        edge_terms = [[V[k], V[(k + 1) % n]] for k in range(n)]
+        north_edge = [z3.Or(zs[k] > 0, zs[(k + 1) % n] > 0) for k in range(n)]
+        N_ARC, S_ARC = [0.0, 0.0, 1.0, 1.0, 0.0, 0.0], [0.0, 0.0, -1.0, 1.0, 0.0, 0.0]
+
+        def handed(call, want_north):
+            """the call received exactly the edges whose 'north' flag is want_north, in face order"""
+            ref, rows, nvalid = call
+            cl = [sc.z(nvalid) == z3.Sum([z3.If(north_edge[k] == want_north, 1, 0) for k in range(n)])]
+            for k in range(n):
+                pos = z3.Sum([z3.If(north_edge[j] == want_north, 1, 0) for j in range(k)]) if k else z3.IntVal(0)
+                for r in range(len(rows)):
+                    eq = z3.And(*[sc.z(a) == b for a, b in zip(rows[r][0] + rows[r][1], edge_terms[k][0] + edge_terms[k][1])])
+                    cl.append(z3.Implies(z3.And(north_edge[k] == want_north, pos == r), eq))
+            return z3.And(*cl)
+        rz = sc.z(res) if isinstance(res, sc.Sym) else z3.BoolVal(bool(res))
+        if len(calls) == 2:
+            ctx.prove("a face touching or straddling the equator: the northern arc is counted against the edges with a northern endpoint, the southern arc against the others (every edge once)",
+                      z3.And(z3.Not(all_n), z3.Not(all_s), z3.BoolVal(calls[0][0] == N_ARC and calls[1][0] == S_ARC), handed(calls[0], True), handed(calls[1], False)))
+            ctx.prove("... and the answer is the parity of the two counts", rz == ((cnt[0] + cnt[1]) % 2 == 1))
+        elif len(calls) == 1:
+            want = N_ARC if pole == "North" else S_ARC
+            ctx.prove("a face inside the queried pole's hemisphere: that pole's arc against all edges, answer = parity",
+                      z3.And(all_n if pole == "North" else all_s, z3.BoolVal(calls[0][0] == want), handed(calls[0], True) if pole == "North" else handed(calls[0], False),
+                             rz == (cnt[0] % 2 == 1)))
+        else:
+            ctx.prove("a face inside the other hemisphere cannot contain the queried pole", z3.And(all_s if pole == "North" else all_n, z3.Not(rz)))
+        ctx.reachable("equator branch", len(calls) == 2)
+
+    def replay(v):
+        # faces at the equator / prime meridian with known answers, judged on the real Grid.bounds
+        for pts in ([(-5, -5), (5, -5), (5, 5), (-5, 5)], [(-5, 0), (5, 0), (5, 5), (-5, 5)], [(-5, -5), (5, -5), (0, 5)], [(-5, 0), (5, 0), (2, 5)], [(0, -5), (5, 0), (0, 5), (-5, 0)],
+                    [(-5, -5), (5, -5), (5, 0), (-5, 0)]):
+            r = _check_real_face([math.radians(p[0]) % (2 * PI) for p in pts], [math.radians(p[1]) for p in pts])
+            if r:
+                return r
+        return None
+
+    return Obligation(oid, "_pole_point_inside_polygon hands every edge to the count of its own hemisphere's reference arc", setup, run, replay, exact=False,
+                      functions=["geometry._pole_point_inside_polygon", "geometry._classify_polygon_location"],
+                      bounds=f"{n} corners with symbolic coordinates (z = 0 or |z| >= 1e-3), both pole queries", stubs=["_check_intersection -> recorder returning an abstract count"], max_paths=4000)
+
+
+def make_pole_count(oid, n=3):
+    """_check_intersection: the crossing count of the reference arc pole -> (1,0,0) with the boundary of a face on the pole's hemisphere has the parity of
+    the true number of crossings (interior crossings + corners at which the boundary changes sides)"""
+    def setup(ctx):
+        V = [[z3.Real(f"v{k}_{c}") for c in "xyz"] for k in range(n)]
+        X = [[z3.Real(f"x{k}_{c}") for c in "xyz"] for k in range(n)]
+        kind = [ctx.int(f"kind_{k}", 0, 3) for k in range(n)]       # 0 none, 1 interior point, 2 at the edge's start corner, 3 at its end corner
+        S = ctx.solver
+        m = sc.lift(1e-3)
+        for k in range(n):
+            v, x = V[k], X[k]
+            S.add(v[2] >= sc.lift(0.1), v[2] <= sc.lift(0.95), v[0] >= -1, v[0] <= 1, v[1] >= -1, v[1] <= 1, z3.Or(v[1] == 0, v[1] >= m, v[1] <= -m))
+            S.add(x[1] == 0, x[0] >= sc.lift(0.05), x[0] <= 1, x[2] >= sc.lift(0.05), x[2] <= sc.lift(0.95))
+            for j in range(n):
+                S.add(z3.Or(x[0] - V[j][0] >= m, V[j][0] - x[0] >= m))
+                if j < k:
+                    S.add(z3.Or(x[0] - X[j][0] >= m, X[j][0] - x[0] >= m), z3.Or(v[0] - V[j][0] >= m, V[j][0] - v[0] >= m))
+        kz = [sc.z(k_) for k_ in kind]
+        y = [V[k][1] for k in range(n)]
+        opp = lambda a, b: z3.Or(z3.And(a > 0, b < 0), z3.And(a < 0, b > 0))     # noqa: E731
+        for k in range(n):
+            k1, k2 = (k + 1) % n, (k + 2) % n
+            S.add(z3.Implies(kz[k] == 2, y[k] == 0), z3.Implies(kz[k] == 3, y[k1] == 0), (kz[k] == 3) == (kz[k1] == 2))
+            S.add(z3.Implies(kz[k] == 1, opp(y[k], y[k1])))
+            S.add(z3.Implies(kz[k] == 3, z3.And(y[k] != 0, y[k2] != 0)))          # no edge along the reference meridian
+        hits = z3.Sum([z3.If(kz[k] == 1, 1, 0) + z3.If(kz[k] == 3, 1, 0) for k in range(n)])
+        S.add(hits <= 2)                                                          # a great circle meets the boundary of a convex face at most twice ...
+        S.add(z3.Implies(hits == 2, z3.And(*[z3.Implies(kz[k] == 3, opp(y[k], y[(k + 2) % n])) for k in range(n)])))   # ... and then passes through it
+        ctx.eng.declare("V", V); ctx.eng.declare("X", X)
+        return V, X, kind
+
+    def run(ctx, inp):
+        V, X, kind = inp
+        sc.NL_UF[0] = True
+        sc.NL_SIGN[0] = True
+        g = world().G["uxarray.grid.geometry"]
+        saved = g["gca_gca_intersection"], g["_unique_points"]
+        A = lambda r: symnp.SArr.new([mk(x) for x in r], (3,), None, symnp.float64)      # noqa: E731
+        kc = [sc.concretize(k_) for k_ in kind]
+
+        def inter(ref_edge, edge):
+            a = edge[0].flat_list()
+            k = [i for i in range(n) if _same_terms(a, V[i])][0]
+            if kc[k] == 0:
+                return symnp.array([])
+            pt = X[k] if kc[k] == 1 else (V[k] if kc[k] == 2 else V[(k + 1) % n])
+            return symnp.SArr.new([mk(x) for x in pt], (1, 3), None, symnp.float64)
+
+        def uniq(points, tolerance=None):
+            out = []
+            for p in points:
+                if not any(_same_terms(p.flat_list(), q.flat_list()) for q in out):
+                    out.append(p)
+            return out
+        g["gca_gca_intersection"], g["_unique_points"] = inter, uniq
+        try:
+            E = symnp.SArr.new([mk(x) for k in range(n) for x in (V[k] + V[(k + 1) % n])], (n, 2, 3), None, symnp.float64)
+            ref = symnp.array([[0.0, 0.0, 1.0], [1.0, 0.0, 0.0]])
+            res = g["_check_intersection"](ref, E)
+        finally:
+            g["gca_gca_intersection"], g["_unique_points"] = saved
+            sc.NL_UF[0] = False
+            sc.NL_SIGN[0] = False
+        y = [V[k][1] for k in range(n)]
+        opp = lambda a, b: z3.Or(z3.And(a > 0, b < 0), z3.And(a < 0, b > 0))     # noqa: E731
+        truth = sum(1 for k in range(n) if kc[k] == 1)
+        vertex_terms = [opp(y[k], y[(k + 2) % n]) for k in range(n) if kc[k] == 3]
+        true_cnt = truth + z3.Sum([z3.If(t, 1, 0) for t in vertex_terms]) if vertex_terms else z3.IntVal(truth)
+        rz = sc.z(res) if isinstance(res, sc.Sym) else z3.IntVal(int(res))
+        ctx.prove("the count has the parity of the true number of boundary crossings (a corner counts iff its neighbours lie on opposite sides of the reference meridian)",
+                  (rz % 2) == (true_cnt % 2), note=f"kinds {kc}")
+        ctx.reachable("a single intersection in a corner", sum(1 for k_ in kc if k_ == 3) == 1 and truth == 0)
+
+    def replay(v):
+        # polar caps and near-pole faces with a corner exactly on longitude 0, both kinds (the meridian passes through / only touches the face)
+        for pts, north in (([(0, 60), (90, 60), (180, 60), (-90, 60)], True), ([(0, 70), (120, 65), (-120, 75)], True), ([(0, -60), (-90, -60), (180, -60), (90, -60)], False)):
+            r = _check_real_pole_face([p[0] for p in pts], [p[1] for p in pts], north)
+            if r:
+                return r
+        for pts in ([(0, 60), (20, 50), (30, 70)], [(0, 40), (-25, 50), (-10, 65)], [(0, 10), (10, 12), (5, 20), (-5, 15)]):
+            r = _check_real_face([math.radians(p[0]) % (2 * PI) for p in pts], [math.radians(p[1]) for p in pts])
+            if r:
+                return r
+        return None
+
+    return Obligation(oid, "_check_intersection: parity of the reference-arc crossing count, incl. intersections in corners", setup, run, replay, exact=False,
+                      functions=["geometry._check_intersection"],
+                      bounds=f"{n}-corner face on the pole's hemisphere; per edge an abstract intersection (none / interior point / start corner / end corner), at most two distinct intersection points (convexity)",
+                      stubs=["gca_gca_intersection -> abstract answer per edge (its correctness is C14.intersect + C14.pwg)", "_unique_points -> de-duplication of identical points (C13.unique_points)",
+                             "products of unknowns uninterpreted with the sign rule"],
+                      assumptions=["geometric consistency of the abstract answers: a corner on the arc is seen by both incident edges; an interior intersection means the end corners lie on opposite sides; no edge along the meridian"],
+                      max_paths=4000)
+
+
 def make_box(oid, n, span, tiers=("quick", "thorough"), cost=3):
     """n corners; span: 'plain' (longitudes within [1,2] rad) or 'wrap' (the face straddles lon = 0)"""
     def setup(ctx):
@@ -328,7 +755,10 @@ def make_edges(oid, which):
 
 
 def obligations(tier):
-    obs = [make_insert_contract("C13.insert.contract"), make_box("C13.box.3.plain", 3, "plain"), make_box("C13.box.3.wrap", 3, "wrap"),
+    obs = [make_insert_contract("C13.insert.contract"), make_insert_pole("C13.insert.pole"), make_unique_points("C13.unique_points"), make_pole_split("C13.pole.split"), make_pole_count("C13.pole.count.3"),
+           make_pole_count("C13.pole.count.4", 4),
+           make_box_pole("C13.box.pole.north.3", 3, True), make_box_pole("C13.box.pole.south.3", 3, False),
+           make_box_pole("C13.box.pole.north.4", 4, True, tiers=("thorough",), cost=20), make_box("C13.box.3.plain", 3, "plain"), make_box("C13.box.3.wrap", 3, "wrap"),
            make_box("C13.box.4.plain", 4, "plain", tiers=("thorough",), cost=20), make_box("C13.box.4.wrap", 4, "wrap", tiers=("thorough",), cost=20),
            make_edges("C13.edges.cartesian", "cartesian"), make_edges("C13.edges.lonlat", "lonlat")]
     return [o for o in obs if tier in o.tiers]
